@@ -16,6 +16,8 @@ package dsse
 //@ func VerifyEnvelope -> (acc, err)
 //@   trusted
 //@   pure
+//@   # A-errors: dependencies never answer with the policy package's "conditions unmet" sentinel
+//@   ensures !errIs(err, policy.ErrVerifierConditionsUnmet)
 //@   ensures forall i :: 0 <= i && i < len(acc) ==> envValid(envelope, acc[i].KeyID) && (exists j :: 0 <= j && j < len(verifiers) && vKeyID(verifiers[j]) == acc[i].KeyID)
 //@   ensures forall a, b :: 0 <= a && a < b && b < len(acc) ==> acc[a].KeyID != acc[b].KeyID
 //@   ensures forall j :: 0 <= j && j < len(verifiers) && envValid(envelope, vKeyID(verifiers[j])) && err == nil ==> (exists i :: 0 <= i && i < len(acc) && acc[i].KeyID == vKeyID(verifiers[j]))
